@@ -295,11 +295,10 @@ pub fn saturated_script(rng: &mut Rng) -> Option<(MBoard, bool, Vec<Code>, &'sta
             }
         }
         let mut b = MBoard::empty();
-        // immobile rabbits: gold R on a1 frozen by a silver cat/dog on a2; silver r on h8 (static)
+        // the mover's rabbit is immobile (R on a1 frozen by a cat/dog on a2) so that X is its only mobile piece; the other side's rabbit on h8 is simply never moved
         b.0[56] = cell(0, true);
         b.0[48] = cell(1 + rng.below(2) as u8, false);
         b.0[7] = cell(0, false);
-        b.0[15] = cell(1 + rng.below(2) as u8, true);
         // shuffle piece z of the other side: far from the walk, on the h/a file
         let zcands: Vec<(usize, usize)> = [(31usize, 39usize), (23, 31), (39, 47), (24, 32), (32, 40), (16, 24)].iter().copied().filter(|(a, c)| all.iter().all(|q| dist(*q, *a) >= 2 && dist(*q, *c) >= 2)).collect();
         if zcands.is_empty() {
@@ -509,7 +508,8 @@ pub fn saturated_script(rng: &mut Rng) -> Option<(MBoard, bool, Vec<Code>, &'sta
 pub fn play_saturated(games: u64, seed: u64, worker: usize, opts: &PlayOpts, mon: &mut dyn Monitor, sink: &mut Sink) {
     let mut rng = Rng::new(seed, (worker as u64) << 8 | 0x5B);
     for idx in 0..games {
-        match saturated_script(&mut rng) {
+        let r = if idx % 3 == 2 { saturated_script2(&mut rng, (idx / 3) as usize) } else { saturated_script(&mut rng) };
+        match r {
             Some((b, gold, script, kind)) => {
                 sink.count(&format!("saturated_scripts_{}", kind));
                 let start = if rng.chance(1, 10) { Start::Text { board: b, gold, moveno: 2 + rng.below(50) as u64 } } else { Start::Inject { board: b, gold, moveno: 2 + rng.below(50) as u64 } };
@@ -531,6 +531,10 @@ mod tests {
         for _ in 0..300 {
             let r = saturated_script(&mut rng);
             *k.entry(r.map(|x| x.3).unwrap_or("none")).or_insert(0) += 1;
+        }
+        for i in 0..200 {
+            let r = saturated_script2(&mut rng, i);
+            *k.entry(r.map(|x| x.3).unwrap_or("none2")).or_insert(0) += 1;
         }
         println!("{:?}", k);
         println!("{:?}", SAT_FAIL.iter().map(|x| x.load(std::sync::atomic::Ordering::Relaxed)).collect::<Vec<_>>());
@@ -744,6 +748,375 @@ pub fn play_setup_cyclers(games: u64, seed: u64, worker: usize, mon: &mut dyn Mo
         }
         if !built {
             sink.count("setup_cycler_script_construction_failed");
+        }
+    }
+}
+
+/// W5b, second generation: saturation in the world where a weak enemy piece p stands on q'
+/// (two squares from s, behind q in N(s)), then p steps back to q on its own, and the final turn is
+///   kind "pull_restores_start":  push p q->q', X s->q, X q->s. At step 3 the pass and every step of
+///        X recreate positions that occurred twice, and the only other candidate, pulling p back,
+///        restores the board of the turn start: every candidate of every branch of has_move is withheld;
+///   kind "push_completion_third": X w->..->s (two steps), push p q->q' (third step); the only
+///        completion X s->q recreates a position that occurred twice: the rule-only list must still
+///        contain it, the offered list must not.
+pub fn saturated_script2(rng: &mut Rng, kind_sel: usize) -> Option<(MBoard, bool, Vec<Code>, &'static str)> {
+    let dist = |a: usize, b: usize| ((a % 8) as i32 - (b % 8) as i32).abs() + ((a / 8) as i32 - (b / 8) as i32).abs();
+    'attempt: for _ in 0..80 {
+        let gold = rng.chance(1, 2);
+        let mirror = rng.chance(1, 2);
+        let s = [25usize, 26, 27, 28, 29, 30, 33, 34, 35, 36, 37, 38][rng.below(12)];
+        let d = rng.below(4) as u8;
+        let q = nb(s, d)?;
+        // q' beyond q, not adjacent to s
+        let qc: Vec<usize> = (0..4u8).filter_map(|k| nb(q, k)).filter(|x| *x != s && dist(*x, s) >= 2 && !TRAPS.contains(x) && (1..7).contains(&(x / 8))).collect();
+        if qc.is_empty() || TRAPS.contains(&q) || TRAPS.contains(&s) {
+            continue;
+        }
+        let qp = qc[rng.below(qc.len())];
+        let ns: Vec<usize> = (0..4u8).filter_map(|k| nb(s, k)).collect();
+        if ns.iter().any(|n| TRAPS.contains(n)) {
+            continue;
+        }
+        let ws: Vec<usize> = (8..56).filter(|w| (dist(*w, s) == 2 || dist(*w, s) == 3) && !TRAPS.contains(w) && *w != qp && !ns.contains(w) && dist(*w, qp) >= 2).collect();
+        if ws.len() < 7 {
+            continue;
+        }
+        let xs = 1 + rng.below(5) as u8;
+        let mut b = MBoard::empty();
+        b.0[56] = cell(0, true);
+        b.0[48] = cell(1 + rng.below(2) as u8, false);
+        b.0[7] = cell(0, false);
+        let mut all: Vec<usize> = vec![s, q, qp];
+        all.extend(ns.iter());
+        all.extend(ws.iter());
+        let zcands: Vec<(usize, usize)> = [(31usize, 39usize), (23, 31), (39, 47), (24, 32), (32, 40), (16, 24)].iter().copied().filter(|(a, c)| all.iter().all(|x| dist(*x, *a) >= 2 && dist(*x, *c) >= 2)).collect();
+        if zcands.is_empty() {
+            continue;
+        }
+        let (za, zb) = zcands[rng.below(zcands.len())];
+        b.0[za] = cell(2 + rng.below(3) as u8, false);
+        if b.0[qp] != 0 || b.0[ws[0]] != 0 {
+            continue;
+        }
+        b.0[qp] = cell(rng.below(xs as usize) as u8, false);
+        b.0[ws[0]] = cell(xs, true);
+        if !b.is_legal_position() {
+            continue;
+        }
+        let kind = if kind_sel % 2 == 0 { "pull_restores_start" } else { "push_completion_third" };
+        // on-beat plan: every target twice; for kind A the second visit of s is the last on-beat turn
+        let targets: Vec<usize> = std::iter::once(s).chain(ns.iter().copied().filter(|x| b.0[*x] == 0)).collect();
+        let mut on: Vec<usize> = targets.clone();
+        let mut second: Vec<usize> = targets.iter().copied().filter(|x| *x != s).collect();
+        rng.shuffle(&mut second);
+        on.extend(second);
+        if kind == "pull_restores_start" {
+            on.push(s);
+        } else {
+            on.push(s);
+            // one more on-beat turn that parks X two steps from s (fresh position)
+            on.push(ws[1 + rng.below(ws.len() - 1)]);
+        }
+        let mut board = b;
+        let mut script: Vec<Code> = vec![];
+        let mut hist: std::collections::HashMap<(MBoard, bool), u32> = std::collections::HashMap::new();
+        hist.insert((board, true), 1);
+        let mut xpos = ws[0];
+        let mut zpos = za;
+        let path = |board: &MBoard, from: usize, to: usize, maxlen: usize| -> Option<Vec<(usize, u8)>> {
+            let mut prevm: std::collections::HashMap<usize, (usize, u8)> = std::collections::HashMap::new();
+            let mut frontier = vec![from];
+            for _ in 0..maxlen {
+                let mut next = vec![];
+                for f in frontier {
+                    for k in 0..4u8 {
+                        if let Some(n2) = nb(f, k) {
+                            if n2 != from && board.0[n2] == 0 && !TRAPS.contains(&n2) && !prevm.contains_key(&n2) {
+                                prevm.insert(n2, (f, k));
+                                next.push(n2);
+                            }
+                        }
+                    }
+                }
+                frontier = next;
+            }
+            if !prevm.contains_key(&to) {
+                return None;
+            }
+            let mut out = vec![];
+            let mut cur = to;
+            while cur != from {
+                let (p, k) = prevm[&cur];
+                out.push((p, k));
+                cur = p;
+            }
+            out.reverse();
+            Some(out)
+        };
+        // gold walk turn helper
+        let mut wi = 1usize;
+        let n_on = on.len();
+        for (i, dest) in on.iter().enumerate() {
+            // on-beat turn to `dest`
+            for phase in 0..2 {
+                let target = if phase == 0 {
+                    *dest
+                } else {
+                    wi += 1;
+                    ws[1 + wi % (ws.len() - 1)]
+                };
+                if phase == 1 && i == n_on - 1 {
+                    break; // after the last on-beat turn the other side moves p, not z
+                }
+                if target == xpos {
+                    continue 'attempt;
+                }
+                let steps = match path(&board, xpos, target, 4) {
+                    Some(p) => p,
+                    None => continue 'attempt,
+                };
+                let mut pend = Pend::None;
+                for (k, (sq, dd)) in steps.iter().enumerate() {
+                    if !board.legal(true, k as u8, pend).contains(step_code(*sq, *dd)) {
+                        continue 'attempt;
+                    }
+                    let a = board.apply(true, pend, *sq, *dd).unwrap();
+                    if !a.captured.is_empty() {
+                        continue 'attempt;
+                    }
+                    board = a.board;
+                    pend = a.pend;
+                    script.push(step_code(*sq, *dd));
+                }
+                let c = hist.entry((board, false)).or_insert(0);
+                if *c >= 2 {
+                    continue 'attempt;
+                }
+                *c += 1;
+                if steps.len() < 4 {
+                    script.push(PASS);
+                }
+                xpos = target;
+                // the other side: z alternates (after every gold turn except the very last on-beat one)
+                if !(phase == 0 && i == n_on - 1) {
+                    let (zf, zt) = if zpos == za { (za, zb) } else { (zb, za) };
+                    let dz = (0..4u8).find(|k| nb(zf, *k) == Some(zt)).unwrap();
+                    if !board.legal(false, 0, Pend::None).contains(step_code(zf, dz)) {
+                        continue 'attempt;
+                    }
+                    board = board.apply(false, Pend::None, zf, dz).unwrap().board;
+                    zpos = zt;
+                    let c = hist.entry((board, true)).or_insert(0);
+                    if *c >= 2 {
+                        continue 'attempt;
+                    }
+                    *c += 1;
+                    script.push(step_code(zf, dz));
+                    script.push(PASS);
+                }
+            }
+        }
+        if zpos != za {
+            continue;
+        }
+        // the other side steps p back from q' to q
+        let dp = (0..4u8).find(|k| nb(qp, *k) == Some(q))?;
+        if !board.legal(false, 0, Pend::None).contains(step_code(qp, dp)) {
+            continue;
+        }
+        let a = board.apply(false, Pend::None, qp, dp).unwrap();
+        if !a.captured.is_empty() {
+            continue;
+        }
+        board = a.board;
+        script.push(step_code(qp, dp));
+        script.push(PASS);
+        // the final turn
+        let dqs = (0..4u8).find(|k| nb(s, *k) == Some(q))?; // s -> q
+        let mut pend = Pend::None;
+        let mut k = 0u8;
+        let mut do_step = |board: &mut MBoard, pend: &mut Pend, k: &mut u8, sq: usize, dd: u8, script: &mut Vec<Code>| -> bool {
+            if !board.legal(true, *k, *pend).contains(step_code(sq, dd)) {
+                return false;
+            }
+            let a = board.apply(true, *pend, sq, dd).unwrap();
+            if !a.captured.is_empty() {
+                return false;
+            }
+            *board = a.board;
+            *pend = a.pend;
+            *k += 1;
+            script.push(step_code(sq, dd));
+            true
+        };
+        if kind == "pull_restores_start" {
+            if xpos != s {
+                continue;
+            }
+            if !do_step(&mut board, &mut pend, &mut k, q, opp(dp), &mut script) || !do_step(&mut board, &mut pend, &mut k, s, dqs, &mut script) || !do_step(&mut board, &mut pend, &mut k, q, opp(dqs), &mut script) {
+                continue;
+            }
+        } else {
+            let steps = match path(&board, xpos, s, 2) {
+                Some(p) if p.len() == 2 => p,
+                _ => continue,
+            };
+            for (sq, dd) in steps {
+                if !do_step(&mut board, &mut pend, &mut k, sq, dd, &mut script) {
+                    continue 'attempt;
+                }
+            }
+            if !do_step(&mut board, &mut pend, &mut k, q, opp(dp), &mut script) {
+                continue;
+            }
+            // the completion s -> q is the scripted next action; the engine must withhold it
+            script.push(step_code(s, dqs));
+        }
+        let flip = !gold;
+        let tb = b.transform(mirror, flip);
+        let tscript: Vec<Code> = script.iter().map(|c| map_code(*c, mirror, flip)).collect();
+        return Some((tb, gold, tscript, kind));
+    }
+    None
+}
+
+/// W5d "take-back cyclers": side A plays a short turn (own steps, possibly a push or pull), side B
+/// answers with a turn that restores the previous board exactly (found by a pruned search over the
+/// model's legal steps: own steps back, pushes, pulls; ended by a pass or by its fourth step). The
+/// two turns are scripted three times, so that the third occurrence is attempted by a turn that
+/// takes back the opponent's whole previous turn (the occurrence to be counted is the position the
+/// OPPONENT started from) - by pass, by a fourth step, or by a push completion as fourth step.
+pub fn takeback_script(rng: &mut Rng) -> Option<(MBoard, bool, Vec<Code>, &'static str)> {
+    fn diff(a: &MBoard, b: &MBoard) -> usize {
+        (0..64).filter(|i| a.0[*i] != b.0[*i]).count()
+    }
+    // all turns of `gold` from `from` that end exactly on `target` without captures
+    fn search(cur: &MBoard, target: &MBoard, gold: bool, k: u8, pend: Pend, path: &mut Vec<Code>, out: &mut Vec<Vec<Code>>, budget: &mut u32) {
+        if *budget == 0 || out.len() >= 6 {
+            return;
+        }
+        *budget -= 1;
+        if k >= 1 && cur == target && !matches!(pend, Pend::Push(..)) {
+            let mut p = path.clone();
+            if k < 4 {
+                p.push(PASS);
+            }
+            out.push(p);
+        }
+        if k == 4 {
+            return;
+        }
+        // each step repairs at most two squares
+        if diff(cur, target) > 2 * (4 - k as usize) + 2 {
+            return;
+        }
+        for c in cur.legal(gold, k, pend).iter() {
+            if !is_step(c) {
+                continue;
+            }
+            if let Some(a) = cur.apply(gold, pend, code_sq(c), code_dir(c)) {
+                if !a.captured.is_empty() {
+                    continue;
+                }
+                path.push(c);
+                search(&a.board, target, gold, k + 1, a.pend, path, out, budget);
+                path.pop();
+            }
+        }
+    }
+    for _ in 0..40 {
+        // a small mixed cluster: pieces of both sides close together, rabbits at home
+        let mut b = MBoard::empty();
+        let c0 = [26usize, 27, 28, 29, 34, 35, 36, 37][rng.below(8)];
+        b.0[56 + rng.below(8)] = cell(0, true);
+        b.0[rng.below(8)] = cell(0, false);
+        let mut left = [COMPLEMENT, COMPLEMENT];
+        let n = 3 + rng.below(3);
+        let mut placed = 0;
+        let mut guard = 0;
+        while placed < n && guard < 60 {
+            guard += 1;
+            let i = (c0 as i32 + [-9, -8, -7, -1, 0, 1, 7, 8, 9, -16, 16, -2, 2][rng.below(13)]) as usize;
+            if i >= 64 || b.0[i] != 0 || TRAPS.contains(&i) {
+                continue;
+            }
+            let g = placed % 2 == 0;
+            let s = rng.below(6) as u8;
+            let side = if g { 0 } else { 1 };
+            if left[side][s as usize] == 0 || (s == 0 && (i / 8 == 0 || i / 8 == 7)) {
+                continue;
+            }
+            left[side][s as usize] -= 1;
+            b.0[i] = cell(s, g);
+            placed += 1;
+        }
+        if !b.is_legal_position() || b.result(true).is_some() || b.result(false).is_some() {
+            continue;
+        }
+        let a_side = rng.chance(1, 2);
+        // A's turn: 1..3 random legal steps (any kind), no capture, board changed, no pending push at the end
+        let mut cur = b;
+        let mut pend = Pend::None;
+        let mut a_turn: Vec<Code> = vec![];
+        let ka = 1 + rng.below(3);
+        let mut ok = true;
+        for st in 0..ka {
+            let legal: Vec<Code> = cur.legal(a_side, st as u8, pend).iter().filter(|c| is_step(*c)).filter(|c| cur.apply(a_side, pend, code_sq(*c), code_dir(*c)).map_or(false, |a| a.captured.is_empty())).collect();
+            if legal.is_empty() {
+                ok = false;
+                break;
+            }
+            let c = legal[rng.below(legal.len())];
+            let a = cur.apply(a_side, pend, code_sq(c), code_dir(c)).unwrap();
+            cur = a.board;
+            pend = a.pend;
+            a_turn.push(c);
+        }
+        if !ok || cur == b || matches!(pend, Pend::Push(..)) {
+            continue;
+        }
+        a_turn.push(PASS);
+        if cur.result(!a_side).is_some() {
+            continue;
+        }
+        // B's take-back
+        let mut out: Vec<Vec<Code>> = vec![];
+        let mut budget = 20_000u32;
+        search(&cur, &b, !a_side, 0, Pend::None, &mut vec![], &mut out, &mut budget);
+        if out.is_empty() {
+            continue;
+        }
+        // prefer take-backs that end by their fourth step
+        let four: Vec<&Vec<Code>> = out.iter().filter(|t| t.len() == 4 && *t.last().unwrap() != PASS).collect();
+        let tb = if !four.is_empty() && rng.chance(2, 3) { four[rng.below(four.len())].clone() } else { out[rng.below(out.len())].clone() };
+        let kind = if tb.len() == 4 && *tb.last().unwrap() != PASS {
+            // is the fourth step a push completion?
+            "takeback_by_fourth_step"
+        } else {
+            "takeback_by_pass"
+        };
+        let mut script = vec![];
+        for _ in 0..3 {
+            script.extend_from_slice(&a_turn);
+            script.extend_from_slice(&tb);
+        }
+        return Some((b, a_side, script, kind));
+    }
+    None
+}
+
+pub fn play_takebacks(games: u64, seed: u64, worker: usize, mon: &mut dyn Monitor, sink: &mut Sink) {
+    let mut rng = Rng::new(seed, (worker as u64) << 8 | 0x5D);
+    let opts = PlayOpts { max_turns: 40, max_actions: 200, ..PlayOpts::default() };
+    for idx in 0..games {
+        match takeback_script(&mut rng) {
+            Some((b, gold, script, kind)) => {
+                sink.count(&format!("takeback_scripts_{}", kind));
+                let mut rec = GameRecord::new("W5d-takeback", seed, (worker as u64) << 32 | idx, Start::Inject { board: b, gold, moveno: 2 + rng.below(50) as u64 });
+                play(&mut rec, Policy::Script(script), &opts, &mut rng, mon, sink);
+            }
+            None => sink.count("takeback_script_construction_failed"),
         }
     }
 }
